@@ -111,7 +111,31 @@ def r02_2_join_payload(ctx: Ctx, rule: str = "R02.2") -> None:
         inst = "join:on-clause:predicate"
         nontrivial = any(fct.kind == "IS" and "as_trivial()" in " ".join(fct.args) and "True" in fct.args and not fct.polarity for fct in path_facts(p))
         if nontrivial:
-            if "convert_flattened_predicate" in txt or "convert_predicate" in txt:
+            # the predicate is converted against a mapping that, *at that moment*, holds the columns of both operands
+            conv = [(j, c) for j, c in path_calls(p, idx) if call_attr(c) in ("convert_flattened_predicate", "convert_predicate") and len(c.args) >= 2]
+            incomplete = None
+            for j, c in conv:
+                marg = c.args[1]
+                texts = [src(marg)]
+                if isinstance(marg, ast.Name):
+                    b = env_at(p, j).get(marg.id)
+                    if isinstance(b, ast.AST):
+                        texts = [src(b)]
+                    for jj, cc in path_calls(p, idx):
+                        if jj < j and call_attr(cc) in ("update", "__ior__") and isinstance(cc.func, ast.Attribute) and src(cc.func.value) == marg.id:
+                            texts.extend(src(a) for a in cc.args)
+                    for st in p.steps[idx:j]:
+                        if st.kind == "stmt" and isinstance(st.node, ast.AugAssign) and src(st.node.target) == marg.id:
+                            texts.append(src(st.node.value))
+                joined = " ".join(texts)
+                if not (f"{lp}.columns_available" in joined and f"{rp}.columns_available" in joined):
+                    incomplete = (c, [s for s in (lp, rp) if f"{s}.columns_available" not in joined])
+            if incomplete is not None and inst not in reported:
+                reported.add(inst)
+                run.fail(rule, inst, f"the join predicate is converted against a mapping that does not yet hold the columns of {'/'.join(incomplete[1])} at that point: a predicate on a column only that operand has fails with a missing-column lookup at compile time", fi=f, node=incomplete[0], details=describe(p))
+            elif incomplete is not None:
+                pass
+            elif "convert_flattened_predicate" in txt or "convert_predicate" in txt:
                 run.ok(rule, inst)
             elif inst not in reported:
                 reported.add(inst)
@@ -449,6 +473,11 @@ def r02_5_emission_coverage(ctx: Ctx, rule: str = "R02.5") -> None:
                 problem = "several WHERE terms are not emitted as and_(*payload.where)"
         elif none and wheres:
             problem = "a WHERE clause is emitted although the payload has no terms"
+        elif wheres:
+            a0 = wheres[0].args[0] if wheres[0].args else None
+            problem = f"the WHERE clause is built from `{src(a0)[:60]}`, not from every term of {pay}.where (payload.where[0] for one term, and_(*payload.where) for several): a filtered or de-duplicated list can lose a constraint"
+        elif not none:
+            problem = f"no WHERE clause is emitted on a path that has not established that {pay}.where is empty"
         if problem and inst not in seen:
             seen.add(inst)
             run.fail(rule, inst, problem, fi=f, node=p.node, details=describe(p, 14))
@@ -673,3 +702,60 @@ def r_anonymous_binds(ctx: Ctx, rule: str) -> None:
             run.fail(rule, f"convert_column_literal:value:path{i}", "the converted literal does not depend on the value", fi=cl, node=p.node)
     if seen == 0:
         raise AnalysisError("the SQL engine no longer converts literals")
+
+
+def r_flattened_predicate(ctx: Ctx, rule: str) -> None:
+    """flatten_logical_and answers False for a trivially false predicate and [] for a trivially true one."""
+    run, m = ctx.run, ctx.m
+    run.rule(
+        rule,
+        "convert_flattened_predicate keeps flatten_logical_and's two trivial answers apart: `False` (no row satisfies the "
+        "predicate) becomes the single SQL term literal(False), a list of conjuncts becomes one converted term per "
+        "conjunct (none for the empty list); a truthiness test would turn 'never' into 'always'",
+        expected_min=2,
+    )
+    f = m.func(SQL_ENGINE, "Engine.convert_flattened_predicate")
+    ps = [q for q in f.params if q != "self"]
+    calls = [c for c in iter_calls(f.node) if call_attr(c) == "flatten_logical_and" or (isinstance(c.func, ast.Name) and c.func.id == "flatten_logical_and")]
+    if not calls or [src(a) for a in calls[0].args] != [ps[0]]:
+        raise AnalysisError("convert_flattened_predicate no longer flattens its predicate with flatten_logical_and(<predicate>)")
+    n = 0
+    for i, p in enumerate(ctx.paths(f)):
+        if p.outcome != "return":
+            continue
+        n += 1
+        facts = path_facts(p)
+        names = {src(calls[0])}
+        for nm, b in env_at(p).items():
+            if b is calls[0] or (isinstance(b, ast.AST) and src(b) == src(calls[0])):
+                names.add(nm)
+        is_false = any(fct.kind == "IS" and fct.polarity and "False" in fct.args and set(fct.args) & names for fct in facts)
+        not_false = any(fct.kind == "IS" and not fct.polarity and "False" in fct.args and set(fct.args) & names for fct in facts)
+        v = p.value
+        b = resolve_name(p, v.id) if isinstance(v, ast.Name) else v
+        inst = f"convert_flattened_predicate:path{i}"
+        if is_false:
+            ok = isinstance(b, (ast.List, ast.Tuple)) and len(b.elts) == 1 and isinstance(b.elts[0], ast.Call) and call_attr(b.elts[0]) == "literal" and [src(a) for a in b.elts[0].args] == ["False"]
+            if ok:
+                run.ok(rule, inst + ":never")
+            else:
+                run.fail(rule, inst + ":never", f"a trivially false predicate is translated to `{src(v)[:60]}`, not [literal(False)]", fi=f, node=p.node)
+        elif not_false:
+            comp = b if isinstance(b, (ast.ListComp, ast.GeneratorExp)) else (b.args[0] if isinstance(b, ast.Call) and b.args and isinstance(b.args[0], (ast.ListComp, ast.GeneratorExp)) else None)
+            ok = comp is not None and not comp.generators[0].ifs and (src(comp.generators[0].iter) in names) and isinstance(comp.elt, ast.Call) and call_attr(comp.elt) == "convert_predicate" and [src(a) for a in comp.elt.args][:1] == [src(comp.generators[0].target)]
+            if ok:
+                run.ok(rule, inst + ":conjuncts")
+            else:
+                run.fail(rule, inst + ":conjuncts", f"the conjuncts are translated as `{src(v)[:70]}`, not one convert_predicate(...) per conjunct", fi=f, node=p.node)
+        else:
+            run.fail(
+                rule,
+                inst + ":undistinguished",
+                f"`{src(v)[:70]}` is returned on a path that never tested the flattened predicate against False: flatten_logical_and's `False` (never true) is "
+                "treated like its empty list (always true), so a trivially false selection or join condition is emitted with no constraint at all",
+                fi=f,
+                node=p.node,
+                details=describe(p),
+            )
+    if n == 0:
+        raise AnalysisError("convert_flattened_predicate has no returning path")
